@@ -32,7 +32,7 @@ impl Property for C02 {
         "C02"
     }
     fn rule(&self) -> String {
-        "Generated: (language, text, threshold, hint bytes): texts from the clean and dirty sentence generators (number words of every class, speller phrases, ordinals, conjunction/separator/linking/filler words, punctuation, mixed whitespace incl. NBSP/thin space/tab/newline, recasing, glue, truncated words, hostile unicode fragments) and arbitrary unicode strings; thresholds incl. non-finite. Oracle: (1) concatenation of the tokenizer's tokens == input; (2) replace_numbers_in_text == our splice of the tokens with the occurrences reported by find_numbers on the annotated tokens; (3) no occurrence => output byte-identical, and a text the generator built only from ordinary words and punctuation is returned identical; (4) on an id-recording token stream with random separation / not-a-number hints, replace_numbers_in_stream hands each token exactly once and in order either through unchanged or to the replacement constructor of the one occurrence covering it (ids 0..n flatten in order; replaced groups == find_numbers spans with that occurrence's text). Whole-run procedure: clause (2) on long documents (W ordinary words with 2W tokens just above 2^10..2^16, 1000, 10 000, 50 000 - thorough up to 2^20 - followed by tails whose small numbers are linked across punctuation), threshold 10. Non-trivial = distinct texts with >= 1 occurrence and >= 1 non-ASCII or punctuation token.".into()
+        "Generated: (language, text, threshold, hint bytes): texts from the clean and dirty sentence generators (number words of every class, speller phrases, ordinals, conjunction/separator/linking/filler words, punctuation, mixed whitespace incl. NBSP/thin space/tab/newline, recasing, glue, truncated words, hostile unicode fragments) and arbitrary unicode strings; thresholds incl. non-finite. Oracle: (1) concatenation of the tokenizer's tokens == input; (2) replace_numbers_in_text == our splice of the tokens with the occurrences reported by find_numbers on the annotated tokens; (3) no occurrence => output byte-identical, and a text the generator built only from ordinary words and punctuation is returned identical; (4) on id-recording token streams with random separation / not-a-number hints - three per text: every token of the tokenizer, the same without whitespace tokens, word tokens only (a speech recogniser's stream, where occurrences can be directly adjacent) - replace_numbers_in_stream hands each token exactly once and in order either through unchanged or to the replacement constructor of the one occurrence covering it (ids 0..n flatten in order; replaced groups == find_numbers spans with that occurrence's text). Whole-run procedure: clause (2) on long documents (W ordinary words with 2W tokens just above 2^10..2^16, 1000, 10 000, 50 000 - thorough up to 2^20 - followed by tails whose small numbers are linked across punctuation), threshold 10. Non-trivial = distinct texts with >= 1 occurrence and >= 1 non-ASCII or punctuation token.".into()
     }
     fn assumptions(&self) -> Vec<String> {
         vec!["clause (2) compares two routes through the library (drain/insert/join vs. reported spans); the independent parts are splice, concat and the id accounting".into()]
